@@ -74,6 +74,10 @@ class BlockNet(Engine):
                 steps.append({'t': t, 'prio': rng.randint(0, 2), 'party': validator, 'op': 'genesis',
                               'args': {'of': rng.choice(RC.CHAINS), 'clock': rng.choice(['default', 'cur_time']), 'age': rng.choice([0, 7199, 7200, 7201, 10 ** 8]),
                                        'tweak': rng.choice(['none', 'none', 'none', 'bits+1', 'bits-1', 'nonce+1'])}})
+            if rng.random() < 0.15:
+                steps.append({'t': t, 'prio': rng.randint(0, 2), 'party': validator, 'op': 'mutation_pair',
+                              'args': {'txs': [self.gen_valid_tx(rng) for _ in range(rng.choice([2, 2, 4, 6]))], 'header': gen.gen_header(rng), 'cb_script': gen.rhex(rng, rng.randint(2, 60)),
+                                       'order': rng.choice(['valid-first', 'mutated-first', 'valid-mutated-valid']), 'via': rng.choice(['wire', 'object']), 'pow': rng.random() < 0.6}})
             if rng.random() < 0.2:
                 steps.append({'t': t, 'prio': rng.randint(0, 2), 'party': validator, 'op': 'checktx',
                               'args': {'tx': self.gen_valid_tx(rng), 'rule': rng.choice(['none', 'tx-vin-empty', 'tx-vout-empty', 'value-negative', 'value-toolarge', 'total-toolarge',
@@ -150,6 +154,8 @@ class BlockNet(Engine):
             self._checktx(i, st['party'] % len(self.parties), a)
         elif st['op'] == 'genesis':
             self._genesis(i, st['party'] % len(self.parties), a)
+        elif st['op'] == 'mutation_pair':
+            self._mutation_pair(i, st['party'] % len(self.parties), a)
 
     # ---- block building (reference builder)
     def _build(self, a, chain, check_time):
@@ -540,6 +546,52 @@ class BlockNet(Engine):
         ctx.log(self.q.now, validator, 'check', [a['rule'], nth], 'accept' if got is None else 'reject:' + type(exc).__name__)
         if nth == 1:
             self.ctx.nontrivial = True
+
+    def _mutation_pair(self, i, p, a):
+        """Two blocks with the SAME 80-byte header: a valid one [cb, t1..tn] (n even) and its
+        CVE-2012-2459 mutation with the last transaction repeated (same merkle root, a txid twice).
+        The verdict on one must not depend on the other having been checked before."""
+        ctx, C = self.ctx, self.C
+        self._enter(p)
+        chain = self.parties[p]['chain']
+        t = RC.TABLE[chain]
+        cb = {'version': 1, 'vin': [{'hash': BR.NULL_HASH, 'n': 0xffffffff, 'script': a['cb_script'], 'seq': 0xffffffff}], 'vout': [{'value': 5000, 'script': '51'}], 'locktime': 0, 'wit': None}
+        txs = [cb] + [copy.deepcopy(x) for x in a['txs']]
+        if len(txs) % 2 == 0:
+            txs = txs[:-1]                      # odd count: the last node is paired with itself
+        valid = dict(a['header'])
+        valid['txs'] = txs
+        valid['time'] = int(self._now(p)) & 0xffffffff
+        valid['merkle'] = RW.block_merkle(valid).hex()
+        do_pow = a['pow'] and chain == 'regtest'
+        if do_pow:
+            valid['bits'] = 0x207fffff
+            self._grind(valid, True)
+        mutated = dict(valid)
+        mutated['txs'] = txs + [copy.deepcopy(txs[-1])]
+        assert RW.block_merkle(mutated).hex() == valid['merkle']
+        seq = {'valid-first': [valid, mutated], 'mutated-first': [mutated, valid], 'valid-mutated-valid': [valid, mutated, valid]}[a['order']]
+        for k, spec in enumerate(seq):
+            now = self._now(p)
+            want = BR.check_block(spec, now, t['pow_limit'], t['max_money'], do_pow=do_pow)
+            try:
+                blk = C.CBlock.deserialize(RW.enc_block(spec)) if a['via'] == 'wire' else conv.block_from_spec(spec)
+                C.CheckBlock(blk, fCheckPoW=do_pow, cur_time=now)
+                got, exc = None, None
+            except C.ValidationError as e:
+                got, exc = 'reject', e
+            except Exception as e:
+                got, exc = 'crash', e
+            det = dict(rule='mutation-pair', chain=chain, order=a['order'], position=k, expected=want)
+            if got == 'crash':
+                ctx.check(False, 'C16.errfamily', 'CheckBlock raised %s on a merkle-mutation pair' % type(exc).__name__, exc=type(exc).__name__, **det)
+                return
+            if want is None:
+                ctx.check(got is None, 'C16.block.valid', 'valid block rejected (%s) when checked %s its same-header mutation' % (exc, 'after' if k else 'before'), **det)
+            else:
+                ctx.check(got == 'reject', 'C16.block.' + want, 'block with a repeated txid (same header as a valid block) accepted when checked as number %d of %s' % (k + 1, a['order']), **det)
+        ctx.fault('same-header-pair.' + a['order'])
+        ctx.log(self.q.now, p, 'mutation_pair', a['order'], 'ok')
 
     def _genesis(self, i, p, a):
         """A chain's genesis block (real proof of work; signet's target equals signet's limit exactly)
